@@ -1,6 +1,7 @@
 CONSTANTS MaxFiles = 3
  Flaw_HttpClosesNormally = FALSE
  Flaw_MergesStaleDir = FALSE
+ Flaw_WritesThrough = FALSE
  Emit = TRUE
 SPECIFICATION Spec
 INVARIANTS EmitCase
